@@ -23,6 +23,7 @@ type Obligation struct {
 	Trace  []string
 	Pos    string
 	Cover  bool // satisfiability (vacuity) query instead of a validity query
+	Before []string // cover-call: the path before the assumed contract was applied
 	Inst   int
 	Result *SolveResult
 }
@@ -171,6 +172,18 @@ func (ex *Exec) oblige(st *State, class, label string, goal Term, tags []string,
 	ex.obls = append(ex.obls, o)
 }
 
+// obligeClause emits one obligation per top-level conjunct of a clause.
+func (ex *Exec) obligeClause(st *State, env *SpecEnv, class, label string, cl *Clause, tags []string, pos token.Pos) {
+	parts := env.conjuncts(cl.E, "")
+	if len(parts) == 1 {
+		ex.oblige(st, class, label, parts[0].t, tags, cl.Src, pos)
+		return
+	}
+	for k, p := range parts {
+		ex.oblige(st, class, fmt.Sprintf("%s/%s%d", label, p.name, k+1), p.t, tags, p.src, pos)
+	}
+}
+
 func (ex *Exec) cover(st *State, label string, tags []string, desc string) {
 	name := fmt.Sprintf("%s#cover:%s", shortFn(ex.topKey), label)
 	ex.oblCount[name]++
@@ -206,15 +219,44 @@ func structOf(t types.Type) (*types.Struct, bool) {
 
 func typeKey(t types.Type) string { return types.TypeString(t, nil) }
 
-func fieldKey(structT types.Type, idx int) string {
-	s, _ := structOf(structT)
-	return "F:" + typeKey(structT) + "." + s.Field(idx).Name()
+// compRefKind records, per heap component, what kind of reference its leaves hold
+// (1: plain reference, 2: interface, 3: slice); used for the heap well-formedness axiom.
+var compRefKind = map[string]int{}
+
+func refKindOf(t types.Type) int {
+	switch t.Underlying().(type) {
+	case *types.Pointer, *types.Map, *types.Chan, *types.Signature:
+		return 1
+	case *types.Interface:
+		return 2
+	case *types.Slice:
+		return 3
+	}
+	return 0
 }
 
-func elemKey(elem types.Type) string { return "E:" + typeKey(elem) }
+func fieldKey(structT types.Type, idx int) string {
+	s, _ := structOf(structT)
+	k := "F:" + typeKey(structT) + "." + s.Field(idx).Name()
+	if _, ok := compRefKind[k]; !ok {
+		compRefKind[k] = refKindOf(s.Field(idx).Type())
+	}
+	return k
+}
+
+func elemKey(elem types.Type) string {
+	k := "E:" + typeKey(elem)
+	if _, ok := compRefKind[k]; !ok {
+		compRefKind[k] = refKindOf(elem)
+	}
+	return k
+}
 
 func mapKeys(m *types.Map) (dom, val, card string) {
 	k := typeKey(m.Key()) + "," + typeKey(m.Elem())
+	if _, ok := compRefKind["MV:"+k]; !ok {
+		compRefKind["MV:"+k] = refKindOf(m.Elem())
+	}
 	return "MD:" + k, "MV:" + k, "MC:" + k
 }
 
@@ -302,6 +344,21 @@ func (ex *Exec) alloc(st *State, hint string) Term {
 	x := ex.freshConst(st, hint, SInt)
 	st.assume(mkAnd(app(SBool, ">", x, tZero), app(SBool, ">=", x, st.next)))
 	st.next = ex.define(st, "next", app(SInt, "*", intLit(allocFactor), app(SInt, "+", x, tOne)))
+	// ghost state of a fresh object starts at its default
+	var gn []string
+	for n := range ex.ct.Ghosts {
+		gn = append(gn, n)
+	}
+	sort.Strings(gn)
+	for _, n := range gn {
+		g := ex.ct.Ghosts[n]
+		if g.KeySort[0] != "ref" {
+			continue
+		}
+		so := ex.ghostSort(g, ex.topFn.Pkg.Pkg)
+		comp := st.comp("G:"+g.Name, so)
+		st.assume(mkEq(mkSelect(comp, x), zeroOfSort(elemSortOf(so))))
+	}
 	return x
 }
 
@@ -772,8 +829,7 @@ func (ex *Exec) checkExit(st *State, results []*Val) {
 		}
 	}
 	for i, e := range c.Ensures {
-		g := env.evalBool(e)
-		ex.oblige(st, "ensures", clauseLabel(e, i), g, ex.clauseTags(e, c.Tags), e.Src, token.NoPos)
+		ex.obligeClause(st, env, "ensures", clauseLabel(e, i), e, ex.clauseTags(e, c.Tags), token.NoPos)
 	}
 	ex.checkFrame(st, c, env)
 	ex.cover(st, "exit", c.Tags, "a normal return path is feasible")
@@ -891,7 +947,7 @@ func (ex *Exec) runBlock(st *State, b *ssa.BasicBlock, pred *ssa.BasicBlock) {
 			}
 			env := ex.loopEnv(st, b, lc)
 			for i, inv := range lc.Invariants {
-				ex.oblige(st, "inv-step", fmt.Sprintf("L%d.%s", nl.ordinal, clauseLabel(inv, i)), env.evalBool(inv), ex.loopTags(inv, lc), inv.Src, token.NoPos)
+				ex.obligeClause(st, env, "inv-step", fmt.Sprintf("L%d.%s", nl.ordinal, clauseLabel(inv, i)), inv, ex.loopTags(inv, lc), token.NoPos)
 			}
 			if lc.Decreases != nil {
 				// measure decreased and bounded below: compare with value saved at the header
@@ -928,7 +984,7 @@ func (ex *Exec) runBlock(st *State, b *ssa.BasicBlock, pred *ssa.BasicBlock) {
 		}
 		env := ex.loopEnv(st, b, lc)
 		for i, inv := range lc.Invariants {
-			ex.oblige(st, "inv-entry", fmt.Sprintf("L%d.%s", nl.ordinal, clauseLabel(inv, i)), env.evalBool(inv), ex.loopTags(inv, lc), inv.Src, token.NoPos)
+			ex.obligeClause(st, env, "inv-entry", fmt.Sprintf("L%d.%s", nl.ordinal, clauseLabel(inv, i)), inv, ex.loopTags(inv, lc), token.NoPos)
 		}
 		comps, all := ex.loopModified(fn, nl, nil)
 		if all {
